@@ -9,7 +9,7 @@ from ..model import AnalysisError, norm
 from ..execmodel import ExecHooks, descriptors, make_session
 from ..interp import explore
 from ..pipeline import stages
-from ..values import Const, NodeV, Str, Sym, tagof
+from ..values import Const, NodeV, Obj, Str, Sym, tagof
 from .c09 import rule_keys
 from .c10 import rule_bootstrap
 from .c20 import rule_release
@@ -53,6 +53,30 @@ def rule_file_naming(ctx):
         for path, st in run_point_states(prog, pt):
             if st.created_db:
                 shapes[("connect", with_path)] = _shape(st.attach_file or [])
+    # an empty db_path is "no db_path" (a CLI / environment default): the instance stays in memory
+    from ..connectmodel import ConnectHooks
+    from ..values import ClsRef
+    pt0 = Point(True, None, True, True, False, False, False)
+    hooks0 = []
+
+    def fac0():
+        h = ConnectHooks(pt0)
+        hooks0.append(h)
+        return h
+
+    def run0(I):
+        return I.construct(ClsRef("fakesnow.conn.FakeSnowflakeConnection"), [Obj("duck", kind="duck"), Sym("database", truthy=True, typ="str"), Const(None)],
+                           {"create_database": Const(True), "create_schema": Const(True), "db_path": Const(""), "nop_regexes": Const(None)}, None)
+
+    for p0, h0 in zip(explore(prog, fac0, run0, max_paths=64), hooks0):
+        if h0.st.created_db:
+            shape0 = _shape(h0.st.attach_file or [])
+            ok0 = shape0 == ":memory:"
+            ctx.ob("C18.a", "connect with db_path='' attaches `:memory:`", ok0, "fakesnow/conn.py", shape0)
+            if not ok0:
+                ctx.violation("C18.a", "conn", "FakeSnowflakeConnection.__init__", f"connect: file `{shape0}` with an empty db_path", "fakesnow/conn.py",
+                              f"with db_path='' (falsy, like None) connect attaches the file `{shape0}`: an in-memory instance writes database files "
+                              f"into the current directory and later instances see its objects")
     # CREATE DATABASE through the pipeline with the connection's db_path
     db_kinds = [k for k in descriptors() if k.startswith("CREATE") and k.endswith("DATABASE") or k.startswith("CREATE DATABASE")]
     for with_path, kind in [(w, k) for w in (False, True) for k in db_kinds]:
